@@ -293,7 +293,7 @@ class C01(Prop):
                  'except in the time-boxed witness']
 
   def cfg(self):
-    return {}
+    return sc.tree_cfg()
 
   def generate(self, rng, tier):
     g = Gen(rng)
